@@ -605,8 +605,10 @@ def run_bounded(plan, prop, b, thorough, seed, known):
         return out
     out["summary"].update({"failures": res.get("n_failures", 0), "evaluations": res.get("evaluations", 0), "distinct_nontrivial": res.get("distinct_nontrivial", 0),
                            "secs": round(time.time() - t0, 1), "samples": res.get("samples", [])[:3]})
-    for f in res.get("failures", [])[:3]:
+    for f in res.get("failures", []):
         wt = json.dumps(f, default=str)
+        if len(out["violations"]) >= 3 and match_known(known, "bounded:" + b.name, wt) is None:
+            continue  # enough distinct violations reported for this stand-in
         k = match_known(known, "bounded:" + b.name, wt)
         pth = write_replay(prop, f"bounded_{b.name}_{f.get('id', len(out['violations']))}",
                            {"property": prop, "obligation": {"name": "bounded:" + b.name}, "failure": f,
